@@ -1,0 +1,93 @@
+//go:build verif
+
+package keeper
+
+// Contracts checked by /verif/govc (contract-based deductive verification).
+// Comment-only: with the `verif` tag off this file is not even parsed.
+
+// ---- parameters as functions of the context (assumed: the param store is a function of the state) ----
+//@ pure nFloor(c Iface) int
+//@ pure nCeil(c Iface) int
+//@ pure nRTTM(c Iface) int
+//@ pure nExp(c Iface) int
+//@ pure nWM(c Iface) int
+
+//@ func (Keeper).ServicerStakeFloorMultiplier
+//@   trusted parameter getter: a deterministic function of the context's state
+//@   modifies bigv
+//@   ensures result.i != nil && fresh(result.i) && bigv[result.i] == nFloor(ctx)
+//@   ensures forall p int {bigv[p]} :: isold(p) ==> bigv[p] == old(bigv[p])
+
+//@ func (Keeper).ServicerStakeWeightCeiling
+//@   trusted parameter getter: a deterministic function of the context's state
+//@   modifies bigv
+//@   ensures result.i != nil && fresh(result.i) && bigv[result.i] == nCeil(ctx)
+//@   ensures forall p int {bigv[p]} :: isold(p) ==> bigv[p] == old(bigv[p])
+
+//@ func (Keeper).RelaysToTokensMultiplier
+//@   trusted parameter getter: a deterministic function of the context's state
+//@   modifies bigv
+//@   ensures result.i != nil && fresh(result.i) && bigv[result.i] == nRTTM(ctx)
+//@   ensures forall p int {bigv[p]} :: isold(p) ==> bigv[p] == old(bigv[p])
+
+//@ func (Keeper).ServicerStakeFloorMultiplierExponent
+//@   trusted parameter getter: a deterministic function of the context's state
+//@   modifies bigv
+//@   ensures res.i != nil && fresh(res.i) && bigv[res.i] == nExp(ctx)
+//@   ensures forall p int {bigv[p]} :: isold(p) ==> bigv[p] == old(bigv[p])
+
+//@ func (Keeper).ServicerStakeWeightMultiplier
+//@   trusted parameter getter: a deterministic function of the context's state
+//@   modifies bigv
+//@   ensures res.i != nil && fresh(res.i) && bigv[res.i] == nWM(ctx)
+//@   ensures forall p int {bigv[p]} :: isold(p) ==> bigv[p] == old(bigv[p])
+
+// ---- validator records as ghost state (assumed link between the KV store and the record) ----
+//@ ghost valHas map[Bytes]bool
+//@ ghost valStake map[Bytes]int
+
+//@ func (Keeper).GetValidator
+//@   trusted record lookup: store read + codec (amino/proto unmarshal is outside /repo)
+//@   modifies bigv
+//@   ensures found == valHas[bytes(addr)]
+//@   ensures found ==> validator.StakedTokens.i != nil && fresh(validator.StakedTokens.i) && bigv[validator.StakedTokens.i] == valStake[bytes(addr)] && bytes(validator.Address) == bytes(addr)
+//@   ensures forall p int {bigv[p]} :: isold(p) ==> bigv[p] == old(bigv[p])
+
+// ---- C27: stake-weighted amounts -------------------------------------------------------------
+// binOf: the stake bin. With F > 0: floor the stake to a multiple of F, cap it at the ceiling
+// floored to a multiple of F, and count multiples of F.
+//@ pure binOf(s int, F int, C int) int = go_div(min(s - s % F, C - C % F), F)
+//@ pure weightOf(bin int, e int, wm int) int = rhe(go_div(fracPow(bin * 1000000000000000000, e, 100) * 1000000000000000000 * 1000000000000000000, wm))
+//@ pure scaled(mult int, n int, w int) int = go_div(rhe(rhe(mult * 1000000000000000000 * (n * 1000000000000000000)) * w), 1000000000000000000)
+
+//@ lemma bin_monotone(s1 int, s2 int, F int, C int)
+//@   props C27
+//@   reveal go_div
+//@   requires F > 0 && C >= 0 && 0 <= s1 && s1 <= s2
+//@   ensures binOf(s1, F, C) <= binOf(s2, F, C)
+//@   ensures 0 <= binOf(s1, F, C)
+
+//@ lemma bin_flat(s int, F int, C int)
+//@   props C27
+//@   reveal go_div
+//@   requires F > 0 && C >= 0 && s >= C
+//@   ensures binOf(s, F, C) == go_div(C - C % F, F)
+
+//@ func (Keeper).calculateRewardRewardPip22
+//@   props C27
+//@   modifies bigv
+//@   ensures [stake-bin] result.i != nil && bigv[result.i] == scaled(old(bigv[multiplier.i]), old(bigv[relays.i]), weightOf(binOf(old(bigv[stake.i]), nFloor(ctx), nCeil(ctx)), nExp(ctx), nWM(ctx)))
+
+// call event: the amount simpleSlash was asked to burn
+//@ ghost slashReq int
+//@ func (Keeper).simpleSlash
+//@   trusted call event only (records the requested amount; the slash itself is under contract in C25)
+//@   modifies all
+//@   ensures slashReq == old(bigv[amount.i])
+
+//@ func (Keeper).BurnForChallenge
+//@   props C27
+//@   modifies all
+//@   ensures [stake-bin] old(global(codec.UpgradeFeatureMap)["RSCAL"] != 0 && ctxHeight(ctx) >= global(codec.UpgradeFeatureMap)["RSCAL"]) && old(valHas[bytes(address)]) ==> slashReq == scaled(nRTTM(ctx), old(bigv[challenges.i]), weightOf(binOf(old(valStake[bytes(address)]), nFloor(ctx), nCeil(ctx)), nExp(ctx), nWM(ctx)))
+//@   ensures [stake-bin-asbuilt] old(global(codec.UpgradeFeatureMap)["RSCAL"] != 0 && ctxHeight(ctx) >= global(codec.UpgradeFeatureMap)["RSCAL"]) && old(valHas[bytes(address)]) ==> slashReq == scaled(nRTTM(ctx), old(bigv[challenges.i]), weightOf(go_div(min(old(valStake[bytes(address)]) - old(valStake[bytes(address)]) % nFloor(ctx), nCeil(ctx) - old(valStake[bytes(address)]) % nFloor(ctx)), nFloor(ctx)), nExp(ctx), nWM(ctx)))
+//@   ensures [flat-rate] old(!(global(codec.UpgradeFeatureMap)["RSCAL"] != 0 && ctxHeight(ctx) >= global(codec.UpgradeFeatureMap)["RSCAL"])) ==> slashReq == nRTTM(ctx) * old(bigv[challenges.i])
